@@ -25,6 +25,8 @@ type Case struct {
 	Kind     string   `json:"kind"`
 	Work     []uint32 `json:"work"`
 	Sched    []uint32 `json:"sched"`
+	// Pol: the auxiliary tape of the schedule stream (scheduling policy, priorities)
+	Pol []uint32 `json:"pol,omitempty"`
 	Seed     uint64   `json:"seed,omitempty"`
 	Index    int      `json:"index,omitempty"`
 }
@@ -89,7 +91,7 @@ func (r *runner) absorb(res simsched.Result) {
 
 func (r *runner) simN(workers, sticky int, knobs map[string]int, f func()) *Finding {
 	runtime.GOMAXPROCS(workers)
-	res := simsched.Run(r.t, simsched.Config{Src: r.sched, Sticky: sticky, Knobs: knobs}, f)
+	res := simsched.Run(r.t, simsched.Config{Src: r.sched, Sticky: sticky, Knobs: knobs, Policy: simsched.DrawPolicy(r.sched)}, f)
 	r.absorb(res)
 	return outcome(res, "simulated run")
 }
@@ -138,7 +140,7 @@ var Kinds = []string{"readers3", "kmeans", "readers2", "heightmap", "readers3", 
 func RunCase(t *testing.T, c *Case, work, sched *choice.Source, st *Stats) (fs []Finding) {
 	r := &runner{t: t, st: st, sched: sched}
 	defer func() {
-		c.Work, c.Sched = work.Tape(), sched.Tape()
+		c.Work, c.Sched, c.Pol = work.Tape(), sched.Tape(), sched.AuxTape()
 		runtime.GOMAXPROCS(16)
 	}()
 	switch {
